@@ -13,7 +13,7 @@ func init() {
 	c12Text := "bounded model checking: goroutines of the real code (go/ssa) are turned into control-flow automata by symbolic execution between visible operations; the product is unrolled K steps into one SMT formula whose schedule and inputs are solver variables; K is raised until no run of K non-stutter steps exists (completeness threshold), so Final conditions are statements about all complete runs of the configuration. "
 	reg(&PropSpec{
 		ID: "C12", Level: "model_checking",
-		Explanation: c12Text + "C12: Join over k = 0..2 inputs (3 thorough), input i fed by its own producer goroutine (sends n_i <= 2 symbolic tagged values, then closes) or pre-filled and closed (Seq style), input capacities 0..1 (2 thorough), also unequal capacities; with producers n_0+n_1 <= 2 (thorough: 3, unbuffered only), pre-filled n_0+n_1 <= 3 (thorough 4); three inputs: (0,0,0) and pre-filled (1,0,0) (thorough: (1,0,0), pre-filled (1,1,0), (1,1,1), (2,1,0)); one consumer ranging over the output. The consumer projects each received value onto its input (tag) and asserts that it is exactly the element at that input's cursor (per-input order, nothing foreign, nothing twice, nothing beyond n_i); Invariant: closed(out) implies every input is closed and empty, every producer completed, and delivered + buffered == total (closes only after all inputs are drained); Final (every quiescent state): every cursor at n_i, total delivered, out closed and empty, copier and closer goroutines exited (closes after the inputs close - no deadlock); cap(out) == k; k = 0 closes immediately.",
+		Explanation: c12Text + "C12: Join over k = 0..2 inputs (3 thorough), input i fed by its own producer goroutine (sends n_i <= 2 symbolic tagged values, then closes) or pre-filled and closed (Seq style), input capacities 0..1 (2 thorough), also unequal capacities; one configuration calls Join with a spread slice that the caller overwrites as soon as Join has returned (the inputs are those of the call); with producers n_0+n_1 <= 2 (thorough: 3, unbuffered only), pre-filled n_0+n_1 <= 3 (thorough 4); three inputs: (0,0,0) and pre-filled (1,0,0) (thorough: (1,0,0), pre-filled (1,1,0), (1,1,1), (2,1,0)); one consumer ranging over the output. The consumer projects each received value onto its input (tag) and asserts that it is exactly the element at that input's cursor (per-input order, nothing foreign, nothing twice, nothing beyond n_i); Invariant: closed(out) implies every input is closed and empty, every producer completed, and delivered + buffered == total (closes only after all inputs are drained); Final (every quiescent state): every cursor at n_i, total delivered, out closed and empty, copier and closer goroutines exited (closes after the inputs close - no deadlock); cap(out) == k; k = 0 closes immediately.",
 		Assumptions: c12Assumptions,
 		Jobs:        c12Jobs,
 	})
@@ -43,6 +43,8 @@ func c12Jobs(tier string) []JobSpec {
 	}
 	// (first job = the one the native self-test runs)
 	add(2, []int{1, 1}, 0, 0, 0)
+	// the argument slice of a spread call is reused by the caller right after the call
+	js = append(js, JobSpec{Group: "pipe", Harness: "VJoin", Mode: "bmc", Params: map[string]int{"k": 2, "cap": 0, "n0": 1, "n1": 1, "spread": 1}, K: 48})
 	// k = 0
 	add(0, nil, 0, 0, 0)
 	// k = 1
